@@ -160,9 +160,9 @@ CHECKS = {
         "rule": ("kinds batch (bubble plans: 0-30 items with gaps from {0, maxWait/3, maxWait, 3*maxWait}, 0-25 consumer steps then close or drain; maxWait 1 s or - 'huge' - MaxInt64 ns; 'scribble' consumers overwrite the spare capacity of every batch they own) and batch-old-timers (real clock, asynctimerchan=1: partition, sizes, lower bound on the age of an underfilled batch; non-trivial = at least 2 batches). batch plans: non-trivial = an underfilled batch was handed out by timer, or Close was issued while the producer held "
                  "undelivered items, or a waiter followed a cancelled waiter; distinct = distinct plan JSON; each plan runs R times"),
         "assumptions": ["testing/synctest fake clock", "sk.RecStream timestamps", "rapid v1.3.0; go1.26.8"],
-        "jobs": [{"pkg": "c11batch", "kinds": ["batch"], "scale_thorough": 10, "shards_thorough": 16, "replay_reps": 30},
+        "jobs": [{"pkg": "c11batch", "kinds": ["batch", "batch-lib-source"], "scale_thorough": 10, "shards_thorough": 16, "replay_reps": 30},
                  {"pkg": "c11old", "kinds": ["batch-old-timers"], "scale_thorough": 4, "shards_thorough": 4},
-                 {"pkg": "c11batch", "race": True, "kinds": ["batch"], "scale_quick": 0.1, "scale_thorough": 2, "shards_thorough": 4, "replay_reps": 20}],
+                 {"pkg": "c11batch", "race": True, "kinds": ["batch", "batch-lib-source"], "scale_quick": 0.1, "scale_thorough": 2, "shards_thorough": 4, "replay_reps": 20}],
     },
     "C10": {
         "level": "exploration",
@@ -290,7 +290,7 @@ RULE_ADDENDA = {
     "C07": " Inputs include NaN, negative and huge counts, 1025-2600-item inputs for Chunk/Last; callbacks are counted; results must be independent of their inputs (scribbling); argument slices must be left intact; constructors are read with contexts that end before, between and during calls.",
     "C09": " Kind panic-abandon: a consumer whose callback panics and whose deferred Close runs: still exactly one Close per stream.",
     "C10": " Close errors include context.Canceled / DeadlineExceeded themselves; kind pipe-gc (a properly closed sender's error survives GCs and finalizers); the package also runs for GOARCH=386.",
-    "C11": " Plans also include sources whose Close takes time, batchSize MaxInt, 'long' streams of hundreds of batches with a bound on batch capacity, and BatchFunc predicates that take 2 x maxWait (old timers); a Next that has not returned after 10 s of active time is a 'stuck' violation.",
+    "C11": " Plans also include sources whose Close takes time, batchSize MaxInt, 'long' streams of hundreds of batches with a bound on batch capacity, and BatchFunc predicates that take 2 x maxWait (old timers); a Next that has not returned after 10 s of active time is a 'stuck' violation. Kind batch-lib-source: Batch over the library's own streams (stream.Chan over a channel that may stay open, FromIterator, a Pipe, a Batch of a Batch): partition, sizes, end, and Close returning at any moment (non-trivial = at least 2 batches, or closed before the end).",
     "C12": " Inputs may be the library's own streams or non-comparable struct values; failing inputs may fail at the same instant with errors of different concrete types; kind stream-merge-wide: 300 inputs that each have to deliver before any of them ends. Also runs for GOARCH=386.",
     "C13": " Errors of mixed concrete types, n up to 8192 incl. multiples of 64, nested Do/Map inside the callbacks. Also runs for GOARCH=386.",
     "C14": " Also: 'lockstep' sources that only produce once the consumer has taken the previous result (bubble, and kind map-lockstep on the real clock), contexts that are already done at construction, f errors with a value attached. Also runs for GOARCH=386.",
